@@ -43,6 +43,12 @@ CHECKS = {
  'C10': ('fault_enumeration', 'failure-closure (taint) model over results, cache contents, start events, launch ledger after the raise',
          'Held for every explored (DAG, failing subset, fault kind, backend, completion order, continue_on_failure).',
          'Unpicklable exceptions may surface as TaskDiedError; no bust_cache with failures.', '4 C10'),
+ 'C18': ('exploration', 'file-system snapshot diff + sys.addaudithook record of every path operation around each LocalStorage call on an adversarial sandbox (strace cross-check in the thorough tier)',
+         'Held on every explored (key, filename, operation, mode): outside canaries byte-identical, every changed or audited path inside the one direct child the key names.',
+         'A key that is a symlink to a sibling key dir names that sibling; stat() during path resolution is not an open.', '4 C18'),
+ 'C20': ('exploration', 'parse-back of build_task_diagram output compared with an independent traversal of the generated graph; cross-interpreter digest comparison',
+         'Held on every explored graph: one class block per reachable type with all fields and run signature, one arrow per (dependent type, parameter, dependency type) with the right "many" flag, deterministic output.',
+         'Per-arrow reading of "many"; block/arrow order not asserted.', '4 C20'),
  'C17': ('exploration', 'holders-model oracle over remove_results calls + probes of the real runner after each release, at each submit and at close()',
          'Held on every explored trace: nothing released while a direct dependent is unfinished, everything released right after its last dependent finished, requested values captured before release, nothing retrievable at close() after a normal return.',
          'Runner.get_result raising KeyError <=> no in-memory result.', '4 C17'),
